@@ -15,8 +15,8 @@ import random
 from common import Check, batch, vacuity
 import refactor as rf
 
-PURE = {"int", "str", "bool", "var", "paren", "bin", "list", "tuple", "ctor", "mcall", "unit"}
-IMPURE = {"call", "lam", "show", "print", "throw", "assert", "set", "upd", "let", "if", "while", "for", "match", "ret", "break", "continue"}
+PURE = {"int", "str", "bool", "var", "paren", "bin", "list", "tuple", "ctor", "mcall", "unit", "dot", "slit"}
+IMPURE = {"call", "lam", "show", "print", "throw", "assert", "set", "upd", "let", "if", "while", "for", "match", "ret", "break", "continue", "letd", "ford", "try"}
 
 
 def pure_targets(prog):
@@ -63,7 +63,7 @@ def run(tier, seed):
     rnd = random.Random(seed * 71 + 20)
     import gen_prog
     import refrun
-    progs, srcs = refrun.gen_programs(seed + 201, 400 if tier == "quick" else 3000, 5, err_rate=0.0)
+    progs, srcs = refrun.gen_programs(seed + 201, 400 if tier == "quick" else 3000, 5, err_rate=0.0, features={"ext": True})
     progs = [p for p in progs if not rf.has_kind(p, {"set", "upd"})]
     for p in progs:
         if p["id"] % 3 == 0:
